@@ -807,10 +807,28 @@ pub fn run_case(c: &Value, variant: usize) -> Vec<String> {
             _ => {
                 drop(v);
                 ids.clear();
-                let s: String = (0..a).map(|i| (b'a' + (i % 26) as u8) as char).collect();
+                // exactly `a` bytes, with two- and three-byte characters mixed in wherever they fit
+                let mut s = String::new();
+                let mut i = 0usize;
+                while s.len() < a {
+                    let left = a - s.len();
+                    if i % 7 == 6 && left >= 3 {
+                        s.push('\u{20ac}');
+                    } else if i % 5 == 3 && left >= 2 {
+                        s.push('\u{e9}');
+                    } else {
+                        s.push((b'a' + (i % 26) as u8) as char);
+                    }
+                    i += 1;
+                }
                 match variant % 3 {
                     0 => Built::Str(Arc::<str>::from(&s[..]), s),
-                    1 => Built::Str(Arc::<str>::from(s.clone()), s),
+                    1 => {
+                        // an owned String with spare capacity: only its initialised prefix is the input
+                        let mut t = String::with_capacity(s.len() + cap as usize + 5);
+                        t.push_str(&s);
+                        Built::Str(Arc::<str>::from(t), s)
+                    }
                     _ => {
                         let h = A::mk(5);
                         hid = h.see().id;
